@@ -459,12 +459,13 @@ Section Closed.
     rewrite O, D, L. auto.
   Qed.
 
-  Lemma get_self : forall h fr d fd env x, nth_error defs d = Some fd -> frame_ok h fr d fd env ->
+  Lemma get_self : forall h fr d fd x frm envd, nth_error defs d = Some fd ->
+    nth_error h fr = Some frm -> fr_fn frm = Some (d, envd) ->
     is_self (fd_name fd) x = true -> bytes_eqb x info_name = false ->
-    exists envd, get defs h fr x = GFound (VFun d envd) false h 0 [].
+    get defs h fr x = GFound (VFun d envd) false h 0 [].
   Proof.
-    intros h fr d fd env x Hd [frm [envd [A [B [C D]]]]] HS HI.
-    exists envd. unfold get. rewrite HI, A. destruct (bytes_eqb x self_name) eqn:S; [rewrite B; auto|].
+    intros h fr d fd x frm envd Hd A B HS HI.
+    unfold get. rewrite HI, A. destruct (bytes_eqb x self_name) eqn:S; [rewrite B; auto|].
     unfold is_self in HS. rewrite S in HS. simpl in HS.
     assert (O : own_name defs frm x = true).
     { unfold own_name. rewrite B, Hd. destruct (fd_name fd); auto; discriminate. }
@@ -555,7 +556,7 @@ Section Closed.
     forall on d fd st fr cur envd args r st',
       nth_error defs d = Some fd ->
       nth_error (st_heap st) fr = Some cur ->
-      (exists pf, nth_error (st_heap st) (if bytes_eqb (fr_key cur) (fd_key fd) then fr else envd) = Some pf) ->
+      (exists pf, nth_error (st_heap st) (if same_fn cur d envd then fr else envd) = Some pf) ->
       forallb (fun p => negb (snd p)) args = true -> cache_ok (st_cache st) ->
       apply_fn (eval f on defs) on defs st fr (VFun d envd) args = (r, st') ->
       r_oc r = OFuel \/ done_call fd (map fst args) r st st'.
@@ -631,7 +632,8 @@ Section Closed.
       apply andb_prop in HC. destruct HC as [HC CA]. apply andb_prop in HC. destruct HC as [HC CI].
       apply andb_prop in HC. destruct HC as [CS CP]. apply negb_true_iff in CI. rewrite closed_all_forallb in CA.
       destruct f as [|f']; [simpl in H; inversion H; subst; auto|].
-      destruct (get_self _ _ _ _ _ _ Hd HF CS CI) as [envd G].
+      pose proof HF as [frm0 [envd [A0 [B0 [C0 D0]]]]].
+      pose proof (get_self _ _ _ _ _ _ _ Hd A0 B0 CS CI) as G.
       assert (EG : eval (S f') on defs st fr (EVar x) = (mkRes (OVal (VFun d envd)) false [] [] [] 0, st))
         by (simpl; rewrite G, set_heap_same; auto).
       rewrite EG in H. cbn [r_oc is_err] in H.
@@ -645,10 +647,10 @@ Section Closed.
           rewrite (peval_list_mono_le fd ka (S ka) _ _ _ _ _ Pa) by (try discriminate; lia). rewrite EA. auto.
         * destruct (apply_fn (eval (S f') on defs) on defs st2 fr (VFun d envd) vals) as [rc st3] eqn:EC.
           pose proof (frame_ok_ext _ _ _ _ _ _ Xa HF) as HF2.
-          destruct HF2 as [frm [envd' [A [B [C D]]]]].
-          assert (PX : exists pf, nth_error (st_heap st2) (if bytes_eqb (fr_key frm) (fd_key fd) then fr else envd) = Some pf).
-          { rewrite C, bytes_eqb_refl. eauto. }
-          destruct (apply_closed (S f') IH on d fd st2 fr frm envd vals rc st3 Hd A PX Ra Ka EC)
+          assert (A : nth_error (st_heap st2) fr = Some frm0) by (destruct Xa as [xa Xa]; rewrite Xa; apply nth_error_app_some; auto).
+          assert (PX : exists pf, nth_error (st_heap st2) (if same_fn frm0 d envd then fr else envd) = Some pf).
+          { unfold same_fn. rewrite B0, !Nat.eqb_refl. simpl. eauto. }
+          destruct (apply_closed (S f') IH on d fd st2 fr frm0 envd vals rc st3 Hd A PX Ra Ka EC)
             as [F|[[kc Pc] [Rc [Lc [Mc [Xc Kc]]]]]].
           { inversion H; subst. left. simpl. auto. }
           inversion H; subst.
@@ -725,7 +727,6 @@ Section Closed.
       destruct (r_oc r1) as [v1| |] eqn:O1.
       + destruct v1; try (inversion H; subst; right; repeat split; simpl; auto;
                          exists (S k1); rewrite peval_S; unfold peval_step; rewrite P1; auto; fail).
-        rewrite R1 in H.
         destruct (eval f on defs st1 fr (if b then e2 else e3)) as [r2 st2] eqn:E2.
         pose proof (frame_ok_ext _ _ _ _ _ _ X1 HF) as HF1.
         assert (CB : closed_expr (is_self (fd_name fd)) (fd_params fd) (if b then e2 else e3) = true) by (destruct b; auto).
@@ -1036,10 +1037,10 @@ Section Root.
     destruct (nth_error defs d) as [fd|] eqn:Hd.
     2:{ unfold apply_fn in A1, A0. rewrite Hd in A1, A0. inversion A1; inversion A0; subst.
         split; [repeat split; auto; simpl; intros w W; discriminate | auto]. }
-    assert (P1 : exists pf, nth_error (st_heap s1) (if bytes_eqb (fr_key root) (fd_key fd) then 0 else 0) = Some pf)
-      by (destruct (bytes_eqb (fr_key root) (fd_key fd)); eauto).
-    assert (P0 : exists pf, nth_error (st_heap s0) (if bytes_eqb (fr_key root) (fd_key fd) then 0 else 0) = Some pf)
-      by (destruct (bytes_eqb (fr_key root) (fd_key fd)); eauto).
+    assert (P1 : exists pf, nth_error (st_heap s1) (if same_fn root d 0 then 0 else 0) = Some pf)
+      by (destruct (same_fn root d 0); eauto).
+    assert (P0 : exists pf, nth_error (st_heap s0) (if same_fn root d 0 then 0 else 0) = Some pf)
+      by (destruct (same_fn root d 0); eauto).
     destruct (apply_closed defs Hclosed f (closed_all defs Hclosed f) true d fd s1 0 root 0 args r1 s1' Hd H1 P1 HR C1 A1)
       as [F|[[k1 Q1] [R1 [L1 [M1 [X1 K1]]]]]]; [congruence|].
     destruct (apply_closed defs Hclosed f (closed_all defs Hclosed f) false d fd s0 0 root 0 args r0 s0' Hd H0 P0 HR C0 A0)
@@ -1218,7 +1219,7 @@ Section Root.
       assert (NA1 : r_oc a1 <> OFuel) by nofuel H1 N1.
       assert (NA0 : r_oc a0 <> OFuel) by nofuel H0 N0.
       destruct (IH _ _ _ _ _ _ _ R L1 E1 E0 NA1 NA0) as [SA RA].
-      pose proof SA as [O [OUT [LG [RF1 [RF0 EV]]]]]. rewrite <- O in H0. rewrite RF1 in H1. rewrite RF0 in H0.
+      pose proof SA as [O [OUT [LG [RF1 [RF0 EV]]]]]. rewrite <- O in H0.
       destruct (r_oc a1) as [vc| |] eqn:OA.
       + destruct vc; try (inversion H1; inversion H0; subst; split; auto; apply same_res_oc; auto; intros w W; inversion W; subst; auto; fail).
         destruct (eval f true defs t1 0 (if b then e2 else e3)) as [b1 u1] eqn:B1.
